@@ -250,7 +250,7 @@ def budget(tier):
 
 # constraints active at the starting point, a tiny initial radius and a feasibility tolerance of zero (or
 # tiny): the first evaluations violate the constraints by 1e-12 .. 1e-8, which must count as infeasible
-TIGHT = dict(PROFILE, slacks=[0.0], infeasible_prob=0, faults=10, max_lin=2, max_nl=1, scale_prob=0,
+TIGHT = dict(PROFILE, slacks=[0.0], infeasible_prob=0, x0_pats=[("ref", 3), ("in", 1)], faults=10, max_lin=2, max_nl=1, scale_prob=0,
              limit_pats=[("le", 3), ("ge", 3), ("two", 1), ("eq", 1)], maxfev=(3, 25))
 
 
